@@ -97,6 +97,9 @@ def p_C01(tier, seed):
                              probe_sample=scope(tier, 10, None), seed=seed))
     nh, nk, no = scope(tier, (16, [16, 24, 40], 300), (64, [16, 33, 64, 100], 1500))
     f.merge(engines.engine_B("C01", ["pq"], seed, nh, nk, no))
+    # mid-size states, every position addressed by every single-element operation
+    f.merge(engines.engine_M("C01", ["pq"], scope(tier, (8, 13, 16, 31), (8, 9, 13, 16, 17, 31, 32, 40, 64)),
+                             scope(tier, 3, 6), seed, ["sorted:pop"]))
     return f
 
 
@@ -107,6 +110,8 @@ def p_C02(tier, seed):
                              alphabet="core", probe_sample=scope(tier, 10, None), seed=seed))
     nh, nk, no = scope(tier, (16, [16, 24, 40], 300), (64, [16, 33, 64, 100], 1500))
     f.merge(engines.engine_B("C02", ["dpq"], seed, nh, nk, no))
+    f.merge(engines.engine_M("C02", ["dpq"], scope(tier, (8, 13, 16, 31), (8, 9, 13, 16, 17, 31, 32, 40, 64)),
+                             scope(tier, 3, 6), seed, ["sorted:pop_min", "sorted:pop_max", "sorted:alt"]))
     return f
 
 
